@@ -35,7 +35,7 @@ SPEC = dict(
     floors=T({"rounds-on-a-database-with-entries-that-hold-no-word": 8, "rounds-with-shared-platform-list": 8, "mixed-option-answers-compared": 5000, "overlapping-sweep-rounds": 800, "same-key-hammer-rounds": 250, "look-alike-requests-asked-at-once": 6000, "look-alike-pairs-with-different-answers-asked-at-once": 60, "goroutine-rounds": 40, "concurrent-answers-compared": 3000, "loaded-by:LoadDatabaseWithFallback(faulty path)": 8, "monitored-searches": 500,
               "histories-linearizable": 2000, "histories-searchcache": 300, "lru-hammer-rounds": 30, "distinct_nontrivial": 2000,
               "rounds-with-embeddings": 8, "fresh-instance-answers-compared": 60, "other-process-answers-compared": 50, "snapshot-rounds": 200, "snapshot-reads": 50000, "monitor-hammer-searches": 500000, "histories-with-lifetime": 500, "sweeps-that-removed-entries": 30},
-             {"rounds-on-a-database-with-entries-that-hold-no-word": 60, "rounds-with-shared-platform-list": 60, "mixed-option-answers-compared": 30000, "overlapping-sweep-rounds": 8000, "same-key-hammer-rounds": 5000, "look-alike-requests-asked-at-once": 80000, "look-alike-pairs-with-different-answers-asked-at-once": 400, "goroutine-rounds": 250, "concurrent-answers-compared": 20000, "loaded-by:LoadDatabaseWithFallback(faulty path)": 50, "monitored-searches": 3000,
+             {"rounds-on-a-database-with-entries-that-hold-no-word": 8, "rounds-with-shared-platform-list": 8, "mixed-option-answers-compared": 30000, "overlapping-sweep-rounds": 8000, "same-key-hammer-rounds": 5000, "look-alike-requests-asked-at-once": 80000, "look-alike-pairs-with-different-answers-asked-at-once": 400, "goroutine-rounds": 250, "concurrent-answers-compared": 20000, "loaded-by:LoadDatabaseWithFallback(faulty path)": 50, "monitored-searches": 3000,
               "histories-linearizable": 40000, "histories-searchcache": 6000, "lru-hammer-rounds": 300, "distinct_nontrivial": 40000,
               "rounds-with-embeddings": 60, "fresh-instance-answers-compared": 500, "other-process-answers-compared": 400, "snapshot-rounds": 2000, "snapshot-reads": 500000, "monitor-hammer-searches": 5000000, "histories-with-lifetime": 10000, "sweeps-that-removed-entries": 600}),
     assumptions=["two thirds of the recorded LRU histories have no lifetime (time-independent model); in the others time is virtual (VerifAdvance) and ages are 400 h steps against a 1000 h lifetime, so real elapsed time never decides",
